@@ -262,7 +262,11 @@ func (g *Gen) pathSet64(open bool, small bool) clip.Paths64 {
 		nV := g.rng(3, maxV)
 		var p clip.Path64
 		if open {
-			p = g.famOpen(g.rng(2, minInt(maxV, 12)))
+			nO := g.rng(2, minInt(maxV, 12))
+			if g.p(0.2) {
+				nO = 2 // a single segment
+			}
+			p = g.famOpen(nO)
 		} else {
 			switch fam {
 			case 0:
@@ -344,12 +348,14 @@ func (g *Gen) manySet() clip.Paths64 {
 	n := g.rng(64, 400)
 	if g.p(0.5) {
 		n = g.rng(64, 160)
+	} else if g.p(0.2) {
+		n = g.rng(512, 640) // above the largest batch threshold seen so far in a seeded change (512 paths)
 	}
 	cols := int(math.Ceil(math.Sqrt(float64(n))))
 	cell := math.Max(4, math.Floor(2*S/float64(cols+1)))
 	out := make(clip.Paths64, 0, n)
 	overlap := g.f(0.3, 0.7)
-	if g.p(0.3) {
+	if g.p(0.3) && n < 512 {
 		overlap = g.f(0.9, 1.3) // touching / overlapping neighbours
 	}
 	for i := 0; i < n; i++ {
@@ -366,6 +372,38 @@ func (g *Gen) manySet() clip.Paths64 {
 			p = clip.Path64{{X: rnd(cx), Y: rnd(cy - h)}, {X: rnd(cx + h), Y: rnd(cy)}, {X: rnd(cx), Y: rnd(cy + h)}, {X: rnd(cx - h), Y: rnd(cy)}}
 		}
 		out = append(out, g.maybeReverse(p))
+	}
+	if g.p(0.5) {
+		// ties between paths: a few paths occur twice (as they are or
+		// reversed) at far-apart positions of the set, among them - half of the
+		// time - the path that holds the lowest-leftmost vertex of the set
+		dup := func(i int) {
+			j := (i + n/2 + g.n(n/4+1)) % n
+			q := append(clip.Path64{}, out[i]...)
+			if g.p(0.7) {
+				for a, b := 0, len(q)-1; a < b; a, b = a+1, b-1 {
+					q[a], q[b] = q[b], q[a]
+				}
+			}
+			out[j] = q
+		}
+		for k, m := 0, g.rng(1, 4); k < m; k++ {
+			dup(g.n(n))
+		}
+		if g.p(0.5) {
+			best := -1
+			var bp clip.Point64
+			for i, p := range out {
+				for _, pt := range p {
+					if best < 0 || pt.Y > bp.Y || (pt.Y == bp.Y && pt.X < bp.X) {
+						best, bp = i, pt
+					}
+				}
+			}
+			if best >= 0 {
+				dup(best)
+			}
+		}
 	}
 	return out
 }
@@ -534,6 +572,16 @@ func (g *Gen) pick(isD bool, open int, small int) int {
 	return cand[g.n(len(cand))]
 }
 
+// openFlag: the "is open" argument of a path-level call; mostly true for an
+// input made of open paths (the short-path and end-point branches of those
+// functions only run with it), a coin otherwise.
+func (g *Gen) openFlag(ref int) int64 {
+	if ref >= 0 && ref < len(g.meta) && g.meta[ref].open && g.p(0.7) {
+		return 1
+	}
+	return int64(g.n(2))
+}
+
 func (g *Gen) ctfr() (int64, int64) {
 	c := int64(g.rng(1, 4))
 	if g.p(0.04) {
@@ -608,6 +656,9 @@ func (g *Gen) fnOp() Op {
 		k -= f.w
 	}
 	op := g.fnOpNamed(name)
+	if g.p(0.4) {
+		op.N = g.n(8) // single-path arguments take another path of their input than the first
+	}
 	if g.p(0.25) {
 		// the caller overwrites and reuses the memory the call returned to it
 		op.P = append(op.P, "scribble-res")
@@ -689,19 +740,19 @@ func (g *Gen) fnOpNamed(name string) Op {
 		op.I = []int64{p, u}
 		op.A = []int{g.pick(true, -1, -1)}
 	case "TrimCollinear64", "StripDuplicates":
-		op.I = []int64{int64(g.n(2))}
 		op.A = []int{g.pick(false, -1, -1)}
+		op.I = []int64{g.openFlag(op.A[0])}
 	case "TrimCollinearD":
-		op.I = []int64{g.pickI(g.pal.precs), int64(g.n(2))}
 		op.A = []int{g.pick(true, -1, -1)}
+		op.I = []int64{g.pickI(g.pal.precs), g.openFlag(op.A[0])}
 	case "SimplifyPath64", "SimplifyPaths64":
 		op.F = []float64{g.pickF(g.pal.eps)}
-		op.I = []int64{int64(g.n(2))}
 		op.A = []int{g.pick(false, -1, -1)}
+		op.I = []int64{g.openFlag(op.A[0])}
 	case "SimplifyPathD", "SimplifyPathsD":
 		op.F = []float64{g.pickF(g.pal.eps) / g.pal.ddiv}
-		op.I = []int64{int64(g.n(2))}
 		op.A = []int{g.pick(true, -1, -1)}
+		op.I = []int64{g.openFlag(op.A[0])}
 	case "Area64", "GetBounds64":
 		op.A = []int{g.pick(false, -1, -1)}
 	case "AreaD":
@@ -998,6 +1049,9 @@ func (g *Gen) focusOps(kind string, slot int) []Op {
 		return g.offsetHistory(slot, false)
 	}
 	op := g.fnOpNamed(kind)
+	if g.p(0.4) {
+		op.N = g.n(8)
+	}
 	// near-duplicates: the first focus call of a run is the base; later ones
 	// are copies of it with one or two arguments drawn again, so that the
 	// overlapping calls agree on most arguments and differ in a few
